@@ -465,7 +465,7 @@ Section Descr.
       (describe_steps float_str float_of_str lower_ext set_iter (dobj_of d)) = true.
   Proof.
     intros H. destruct (description_ok d H) as (_ & -> & Hm & ->). unfold c_description. rewrite Hm. cbn [andb].
-    induction (expected_steps d) as [|[[a b] c] l IH]; cbn; [reflexivity|]. rewrite IH, andb_true_r.
+    unfold list_eqb. induction (expected_steps d) as [|[[a b] c] l IH]; cbn [forallb2]; [reflexivity|]. rewrite IH, andb_true_r.
     unfold step_eqb. cbn [fst snd]. rewrite !str_eqb_refl. destruct c; cbn; [apply str_eqb_refl | reflexivity].
   Qed.
 End Descr.
